@@ -76,6 +76,23 @@ func init() {
 			}
 		},
 		"repeat": func(e *Env, raw json.RawMessage) { c12Repeat(e, decode[c12Cmd](raw)) },
+		"schedule-text-conv": func(e *Env, raw json.RawMessage) {
+			bin, _, err := c12BuildSchedMain(e)
+			if err != nil {
+				panic(err)
+			}
+			c := decode[c12SchedMainCase](raw)
+			s, _ := json.Marshal(c.Schedule)
+			cmd := exec.Command(bin, fmt.Sprint(c.Bound), "1", c.Mode, c.Key, c.Text, string(s))
+			cmd.Env = append(os.Environ(), "VERIF_SCHED=1", "GOMAXPROCS=4")
+			out, err := cmd.Output()
+			fmt.Printf("replayed schedule: %s (err %v)\n", out, err)
+			var r struct{ Outcome, Want string }
+			json.Unmarshal(out, &r)
+			if r.Outcome != r.Want {
+				e.R.Fail(ev.Fail{Class: "C12/schedule/text-conv-outcome", Msg: fmt.Sprintf("schedule %v: %s, default schedule %s", c.Schedule, r.Outcome, r.Want), Kind: "schedule-text-conv", Case: c})
+			}
+		},
 	}})
 }
 
@@ -188,6 +205,22 @@ func c12BuildMapOrder(e *Env) (bin string, sites []rewrite.Site, err error) {
 		return "", sites, fmt.Errorf("building the map-order variant: %v: %s", err, out)
 	}
 	return bin, sites, nil
+}
+
+func c12BuildSchedMain(e *Env) (bin string, res *rewrite.SchedResult, err error) {
+	dir := filepath.Join(e.Scratch, "schedmain")
+	if err := os.MkdirAll(dir, 0o755); err != nil {
+		return "", nil, err
+	}
+	res, err = rewrite.SchedMain(e.RepoDir, dir)
+	if err != nil {
+		return "", nil, err
+	}
+	bin = filepath.Join(dir, "crd-sched")
+	if out, err := goBuild(e.RepoDir, "build", "-overlay", res.Overlay, "-o", bin, "./cmd"); err != nil {
+		return "", res, fmt.Errorf("building the scheduler variant of package main: %v: %s", err, out)
+	}
+	return bin, res, nil
 }
 
 func c12BuildSched(e *Env) (bin string, res *rewrite.SchedResult, err error) {
@@ -382,6 +415,129 @@ func c12Repeat(e *Env, c c12Cmd) {
 			}
 		}
 	}
+}
+
+type c12SchedMainCase struct {
+	Mode     string `json:"mode"`
+	Key      string `json:"key"`
+	Text     string `json:"text"`
+	Bound    int    `json:"bound"`
+	Schedule []int  `json:"schedule,omitempty"`
+	Outcome  string `json:"outcome,omitempty"`
+	Want     string `json:"want,omitempty"`
+}
+
+func c12SchedMain(e *Env) {
+	bin, res, err := c12BuildSchedMain(e)
+	switch {
+	case err != nil:
+		e.R.AddPart(ev.Part{Name: "schedules-text-conv", Enumerated: "skipped: the scheduler variant of package main does not build: " + trunc(err.Error(), 400), Exhaustive: false})
+		return
+	case len(res.Refused) > 0:
+		e.R.AddPart(ev.Part{Name: "schedules-text-conv", Enumerated: "no verdict: constructs the scheduler does not model: " + strings.Join(res.Refused, "; "), Exhaustive: false})
+		return
+	}
+	prog := func(n int, keyEvery int) string {
+		var b strings.Builder
+		for k := 0; k < n; k++ {
+			b.WriteString([]string{"C[1] ", "E/G#[1] ", "Bb_7[1,1/2] ", "F#m[1]{txt=a} "}[k%4])
+			if keyEvery > 0 && k%keyEvery == keyEvery/2 {
+				b.WriteString("G[1]{key=" + []string{"G", "Eb", "F#m", "Cb"}[(k/keyEvery)%4] + "} ")
+			}
+		}
+		return b.String()
+	}
+	cases := []c12SchedMainCase{
+		{"syllable", "C", "C[1] G[1]", -1, nil, "", ""},
+		{"degree", "", "1[1] R[1]", -1, nil, "", ""},
+		{"syllable", "C", "C[1] 2[1]", -1, nil, "", ""},
+		{"syllable", "C", "C[1] G_7/B[1]{key=G} D[1]", 3, nil, "", ""},
+		{"syllable", "Eb", prog(12, 5), 2, nil, "", ""},
+		// long texts: bound 0 still explores every choice at blocking points (which worker runs first), for free
+		{"syllable", "C", prog(300, 97), 0, nil, "", ""},
+		{"degree", "", strings.Repeat("1[1] 5_7/3[2]{bpm=90} R[1] ", 90), 0, nil, "", ""},
+	}
+	if e.Thorough {
+		cases[3].Bound = 5
+		cases[4].Bound = 3
+		cases[5].Bound = 1
+		cases[6].Bound = 1
+		cases = append(cases, c12SchedMainCase{"syllable", "F#", prog(600, 50), 1, nil, "", ""})
+	}
+	type result struct {
+		Executions int            `json:"executions"`
+		MaxPoints  int            `json:"max_points"`
+		Outcomes   map[string]int `json:"outcomes"`
+		Want       string         `json:"want"`
+		Capped     bool           `json:"capped"`
+		Violations []struct {
+			Schedule []int  `json:"schedule"`
+			Outcome  string `json:"outcome"`
+			Want     string `json:"want"`
+			What     string `json:"what"`
+		} `json:"violations"`
+	}
+	results := make([]result, len(cases))
+	errs := make([]string, len(cases))
+	mc.ParFor(len(cases), func(i int) {
+		c := cases[i]
+		ctx, cancel := context.WithTimeout(context.Background(), 20*time.Minute)
+		cmd := exec.CommandContext(ctx, bin, fmt.Sprint(c.Bound), "3000000", c.Mode, c.Key, c.Text)
+		cmd.Env = append(os.Environ(), "VERIF_SCHED=1", "GOMAXPROCS=4")
+		out, err := cmd.Output()
+		timedOut := ctx.Err() == context.DeadlineExceeded
+		cancel()
+		switch {
+		case timedOut:
+			errs[i] = "explorer stopped after 20 minutes"
+		case err != nil:
+			errs[i] = fmt.Sprintf("%v: %s", err, trunc(string(out), 300))
+		default:
+			if err := json.Unmarshal(out, &results[i]); err != nil {
+				errs[i] = err.Error() + ": " + trunc(string(out), 200)
+			}
+		}
+	})
+	var execs int64
+	exh := true
+	var notes []string
+	for i, c := range cases {
+		if strings.HasPrefix(errs[i], "explorer stopped") {
+			exh = false
+			e.R.NotExhaustive(errs[i])
+			continue
+		}
+		if errs[i] != "" {
+			e.R.Fail(ev.Fail{Class: "C12/schedule/explorer-crash", Msg: fmt.Sprintf("exploring text conv %s on %q: %s", c.Mode, trunc(c.Text, 60), errs[i]), Kind: "schedule-text-conv", Case: c})
+			continue
+		}
+		r := results[i]
+		execs += int64(r.Executions)
+		e.R.Eval(int64(r.Executions))
+		e.R.Transition(int64(r.Executions))
+		if r.Capped {
+			exh = false
+		}
+		notes = append(notes, fmt.Sprintf("%s %d chords bound %d: %d schedules, %d points, reference outcome %q", c.Mode, strings.Count(c.Text, "["), c.Bound, r.Executions, r.MaxPoints, trunc(r.Want, 40)))
+		for _, v := range r.Violations {
+			cl := "C12/schedule/text-conv-outcome"
+			switch {
+			case strings.Contains(v.Outcome, "DEADLOCK"):
+				cl = "C12/schedule/deadlock"
+			case strings.Contains(v.Outcome, "PANIC") || strings.Contains(v.Outcome, "panic"):
+				cl = "C12/schedule/panic"
+			case strings.Contains(v.What, "NONDETERMINISTIC"):
+				cl = "C12/schedule/harness-nondeterminism"
+			}
+			cc := c
+			cc.Schedule, cc.Outcome, cc.Want = v.Schedule, v.Outcome, v.Want
+			e.R.Fail(ev.Fail{Class: cl, Msg: fmt.Sprintf("text conv %s on %q under schedule %v: %s (%s); under the default schedule: %s", c.Mode, trunc(c.Text, 60), v.Schedule, v.Outcome, v.What, v.Want), Kind: "schedule-text-conv", Case: cc})
+		}
+	}
+	if execs == 0 && exh {
+		panic("C12 harness: the text-conv schedule exploration ran no execution")
+	}
+	e.R.AddPart(ev.Part{Name: "schedules-text-conv", Enumerated: fmt.Sprintf("the whole `text conv` path (parseText, classification, conversion, marshalling) driven from inside package main under the cooperative scheduler (%d synchronisation sites rewritten in %v): all interleavings for 3-chord texts, preemption-bounded for 12, 270 and 300+ chord texts with key changes (more than 256 chords, so that chunked/parallel conversion would engage); every schedule must give the bytes and verdict of the default schedule, no deadlock, no panic", res.Points, res.Rewritten), Executions: execs, States: int64(len(cases)), Transitions: execs, Exhaustive: exh, Note: strings.Join(notes, " | ")})
 }
 
 func runC12(e *Env) {
@@ -594,6 +750,9 @@ func runC12(e *Env) {
 		e.R.AddPart(ev.Part{Name: "schedules", Enumerated: fmt.Sprintf("ASTTypeClassifier.Classify under the cooperative scheduler (%d synchronisation sites rewritten in %v): all interleavings for trees of <= 2 chords; preemption-bounded for 8 and 40 chords (consistent, inconsistent at the 2nd/last chord and in a bass; > 100 nodes so that the producer blocks on the full buffer); outcome compared with a sequential reference walk, deadlock and panic detection, failing schedules replayed twice", sres.Points, sres.Rewritten), Executions: execs, States: int64(len(trees)), Transitions: execs, Exhaustive: exh, Note: strings.Join(notes, " | ")})
 		e.R.Sample(map[string]any{"part": "schedules", "tree": "C[1] 2[1]", "schedule": "[0 0 1 0 1 ...] = index into the enabled-thread list at every synchronisation point", "oracle": "error (inconsistent), no deadlock, no panic"})
 	}
+
+	// ---- (2b) the whole `text conv` path, goroutines in package main included
+	c12SchedMain(e)
 
 	// ---- (3) I/O paths
 	var ios []c12IOCase
